@@ -19,7 +19,7 @@ PRED_SIG = {
     "P01": ("GHHV", 0),
     "P07": ("TTT", 0),
     "P06": ("GHTT", 0), "P06S": ("T", 0), "P04": ("GHT", 0), "P05": ("GHTV", 0), "J05": ("GHTV", 0), "P09": ("GHTV", 0), "P02": ("T", 0), "P03": ("GT", 0),
-    "W08": ("", 0), "P18": ("GGTTUE", 0), "P18D": ("GGTTUE", 0), "P18F": ("G", 0),
+    "W08": ("", 0), "P15": ("", 0), "P17": ("", 0), "P17D": ("", 0), "P18": ("GGTTUE", 0), "P18D": ("GGTTUE", 0), "P18F": ("G", 0),
 }
 for k, v in PRED_SIG.items(): corr.OPSIG[k] = v
 
@@ -417,6 +417,88 @@ PROPS["C08"] = dict(
     n=dict(quick=(25, 25), thorough=(300, 300)),
     assumptions=["model = hand-written Gallina mirror of compose (with the conditional renormalisation by approxSqrtInv), inverse, exp (incl. SO3's small-angle branch), cast, interpolate_slerp and of the history machine (coq/Hist.v); tied to /repo by exact comparison of encoded histories over the rational scalar",
                  "theorems are over Coq's classical reals (exact arithmetic), for every 0 < eps <= 1/8; IEEE rounding is not in the theorems: it is monitored on the double and float builds, assertion-enabled and NDEBUG, by random walks (quick: 2e4 steps, thorough: 5e5 steps per walk) with the bound eps*(1+2^-8)+64u"],
+)
+
+
+P15_PAIRS = ["SLERP(A,B,0)=A", "SLERP(A,B,1)=B", "CUBIC(A,B,0)=A", "CUBIC(A,B,1)=B", "CNSMOOTH(A,B,0)=A", "CNSMOOTH(A,B,1)=B",
+             "smooth m=1 (A,B,0)=A", "smooth m=1 (A,B,1)=B", "smooth m=2 (A,B,0)=A", "smooth m=2 (A,B,1)=B", "smooth m=4 (A,B,0)=A", "smooth m=4 (A,B,1)=B",
+             "SLERP(A,B,t)=A*exp(t*log(A^-1*B))", "log(A^-1*m(t))=t*log(A^-1*B)", "SLERP(g*A,g*B,t)=g*SLERP(A,B,t)",
+             "t outside [0,1] raises runtime_error (all methods)", "phi(0)=0, phi(1)=1, monotone on a 64-point grid (degrees 1..4)", "unsupported degrees raise logic_error"]
+def gen_p15(g, gn):
+    gd = corr.group(gn)
+    A = corr.gen_elem(g, gd, True, nopi=True, kmax=8)
+    # B at a relative rotation below pi (the half turn has two geodesics)
+    B = compose_py(gd, A, corr.gen_elem(g, gd, True, nopi=True, kmax=8))
+    gg = corr.gen_elem(g, gd, True, kmax=8)
+    def tan():
+        if g.r.random() < 0.25: return [Fr(0)] * gd.dof
+        return sweep_tangent(g, gd, maxang=0.3, linmax=2) if g.r.random() < 0.5 else gen2.small_tangent(g, gd)
+    t = g.r.choice([Fr(0), Fr(1), Fr(1, 2), Fr(1, 3), Fr(7, 8), Fr(1, 2 ** 30), 1 - Fr(1, 2 ** 30), Fr(g.r.randint(0, 100), 100)])
+    g.note("p15_t:%s" % fs(t))
+    return dict(group=gn, op="P15", mask="-", iarg=0, flt=0, args=[A, B, gg, tan(), tan(), [t]])
+
+PROPS["C15"] = dict(
+    vfiles=["Properties_C15.v"], level="proof",
+    groups=BASE_GROUPS,
+    corr_ops=["Interp", "Phi"],
+    preds=[dict(op="P15", pairs=P15_PAIRS, exact=[12, 15, 16, 17], qtol=1e-6, dtol=1e-7, dscale=lambda c: (1 + maxabs(c)) ** 2, gen=gen_p15)],
+    n=dict(quick=(40, 25), thorough=(500, 300)),
+    assumptions=["model = hand-written Gallina mirror of algorithms/interpolation.h (smoothing_phi, interpolate_slerp / _cubic / _smooth, the dispatcher, the order of the argument checks); tied to /repo by exact comparison over the rational scalar for every method, t in {0, 1, interior, just outside [0,1]}, non-zero end-point velocities, degrees 0..6",
+                 "theorems are over Coq's classical reals; end points / geodesic / equivariance are proved for any group with exp(log X) = X on valid elements and instantiated for SO2, SE2, R3 (where C03 is proved); for the other groups they are evaluated on the implementation on every run (exact scalar: tolerance 1e-6 because the oracle square roots are rounded; double: 1e-7 relative)"],
+)
+
+
+def gen_p17(g, gn, op="P17"):
+    c = gen2.gen_decasteljau(g, gn, nmax=9, exact_small=(op == "P17"))
+    gd = corr.group(gn)
+    # consecutive control points at a relative rotation below pi (the geodesic between them is then unique)
+    pts = c["args"][1:]
+    if not gn.startswith("R") and pts:
+        q = [corr.gen_elem(g, gd, True, nopi=True, kmax=6)]
+        for _ in pts[1:]: q.append(compose_py(gd, q[-1], corr.gen_elem(g, gd, True, nopi=True, kmax=3)))
+        pts = q
+    d = dict(c); d["op"] = op; d["args"] = [c["args"][0]] + pts
+    return d
+
+def c17_exhaustive(pid, P, tier, seed, log):
+    """every (N, degree, k, closed) in a box, on R2 (exact) and SE2 (exact): size of the result and the curve itself against the model,
+    each call under the harness time limit (termination is otherwise unobservable)"""
+    nmax = 9 if tier != "thorough" else 14
+    g = mkgen(pid, seed, 17); cases = []
+    for gn in ("R2",) + (("SE2",) if tier == "thorough" else ()):
+        gd = corr.group(gn)
+        for N in range(0, nmax + 1):
+            for d in range(2, N + 2):
+                for k in (0, 1, 2):
+                    for closed in (0, 1):
+                        if gn != "R2" and N * max(k, 1) * d > 60: continue
+                        pts = [[Fr(g.r.randint(-99, 99), g.r.choice([1, 2, 3, 7])) for _ in range(gd.rep)] for _ in range(N)] if gn == "R2" else [gen2.small_elem(g, gd, True) for _ in range(N)]
+                        cases.append(dict(group=gn, op="Decasteljau", mask="-", iarg=(d * 1000 + k) * 2 + closed, flt=0, args=[gen2.dc_ts(d, max(k, 1))] + pts))
+    res, be = corr.run_cases(cases, timeout=600)
+    summ, dis = corr.summarize(res)
+    raw = []
+    for d_ in dis[:5]:
+        c = d_["case"]; code = c["iarg"]
+        raw.append(("corr", dict(group=c["group"], op="Decasteljau", _args=c["args"]),
+                    "decasteljau(N=%d, degree=%d, k=%d, closed=%d) on %s: implementation and model differ (impl %s / model %s)" % (len(c["args"]) - 1, code // 2 // 1000, code // 2 % 1000, code % 2, c["group"], d_["impl"][:80], d_["model"][:80]),
+                    dict(kind="correspondence", names="dc_plan / dc_curve (coq/Algorithms.v) vs manif::decasteljau over ExQ", case=corr.case_json(c), impl=d_["impl"][:3000], model=d_["model"][:3000]), True))
+    log("exhaustive (N <= %d, 2 <= d <= N+1, k in 0..2, open/closed): %d cases, %d disagreements" % (nmax, len(cases), len(dis)))
+    return raw, dict(exhaustive_box="N<=%d, 2<=degree<=N+1, k in {0,1,2}, closed in {0,1}" % nmax, exhaustive_cases=len(cases), exhaustive_disagreements=len(dis))
+
+P17_PAIRS = ["number of curve points = windows * points per window (or: invalid arguments raise)", "last curve point of each window = its last control point",
+             "degree 2: every curve point is on the geodesic between consecutive trajectory points"]
+PROPS["C17"] = dict(
+    vfiles=["Properties_C17.v"], level="proof",
+    groups=["R2", "R3", "SE2", "SO3", "SE3", "SO2"],
+    corr_ops=["Decasteljau"],
+    preds=[dict(op="P17", pairs=P17_PAIRS, scalars=("q",), exact=[0, 1, 2], gen=gen_p17),
+           dict(op="P17D", pairs=P17_PAIRS, scalars=("d",), dtol=0.0, dscale=lambda c: 1.0, gen=lambda g, gn: gen_p17(g, gn, "P17D"))],
+    extra=[c17_exhaustive],
+    n=dict(quick=(30, 30), thorough=(300, 300)),
+    assumptions=["model = hand-written Gallina mirror of algorithms/decasteljau.h with the C++ integer types explicit (size_t, unsigned int, wrapping) and every trajectory[i] a checked access; tied to /repo by exact comparison of the whole returned curve over the rational scalar (a wrong window changes the curve), exhaustively over a box of (N, degree, k, closed)",
+                 "floor(double(a)/double(b)) is modelled as integer division (exact for sizes below 2^53); t_01 = double(t)/segment_k is passed to the model as the exact value of that double quotient",
+                 "termination: the model is structural recursion over a finite plan; on the implementation every call runs under a time limit",
+                 "the window-end and geodesic theorems are proved for groups with exp(log X) = X proved (SO2, SE2, Rn); for the others they are evaluated on the implementation (tolerance 1e-6)"],
 )
 
 # ------------------------------------------------------------------ generic engine
